@@ -138,6 +138,20 @@ Proof.
   eapply in_all_nodes; [exact Hr|]. apply ev_nodes_incl, Hx.
 Qed.
 
+Lemma ev_pool_nodes_incl : forall sel n, incl (ev_pool_nodes sel n) (nodes n).
+Proof.
+  intros sel. induction n as [i kids load IH| | | |] using node_ind'; intros x Hx; try destruct Hx.
+  - cbn [ev_pool_nodes] in Hx. apply in_flat_map in Hx. destruct Hx as (k & Hk & Hx). rewrite Forall_forall in IH.
+    eapply nodes_kid; [exact Hk|]. eapply IH; eauto.
+  - cbn [ev_pool_nodes] in Hx. destruct (sel (Ev i p)); [destruct Hx as [<-|[]]; apply nodes_self|destruct Hx].
+Qed.
+
+Lemma within_ev_pool : forall roots esel, within roots (ev_pool_terms roots esel).
+Proof.
+  intros. apply within_map_plain. intros x Hx. apply in_flat_map in Hx. destruct Hx as (r & Hr & Hx).
+  eapply in_all_nodes; [exact Hr|]. eapply ev_pool_nodes_incl; eauto.
+Qed.
+
 Lemma opt_concat_incl : forall (f : node -> option (list node)) (g : node -> list node) l ms,
   Forall (fun k => forall m, f k = Some m -> incl m (g k)) l ->
   opt_concat (map f l) = Some ms -> incl ms (flat_map g l).
